@@ -53,11 +53,18 @@ def assignDescriptors (T : Tables) (flags : Nat) (body : List Node) : List Node 
       { n with flags := { n.flags with skipped := true, ignored := true } }
     else resolveUnknown T n
 
+/-- a placeholder (missing) value from a replication that occurred zero times is dropped when the
+descriptor is replicated, to be made again from the final encoding -/
+def dropPlaceholder (n : Node) : Node :=
+  if n.flags.ignored ∧ n.val.isSome ∧ n.val.isMissing then { n with val := .none, afW := 0, afBits := 0 } else n
+
 /-- one replica of `bufr_repl_descriptors`: duplicate the body with rank `j+1` -/
 def replicaOf (T : Tables) (extra : Bool) (body : List Node) (j : Nat) : List Node :=
   body.map fun n =>
     let n1 := resolveUnknown T n
-    { n1 with flags := { n1.flags with skipped := false, class33 := n1.flags.class33 || extra }, replRank := j + 1 }
+    -- a placeholder value from a replication that occurred zero times is made again later
+    let n2 := dropPlaceholder n1
+    { n2 with flags := { n2.flags with skipped := false, class33 := n2.flags.class33 || extra }, replRank := j + 1 }
 
 def replicas (T : Tables) (extra : Bool) (body : List Node) (count : Nat) : List Node :=
   (List.range count).flatMap (replicaOf T extra body)
@@ -72,30 +79,45 @@ def memberNodes (T : Tables) : Option Nat → List Nat → Option (List Node)
     if ok then (memberNodes T (some c) cs).map (n :: ·) else none
 
 mutual
-/-- `bufr_estimate_seq_length` with its running state `(lastDesc, lastNbits, repDesc, repCnt)` -/
-def estimateLoop (T : Tables) : Nat → List Node → Nat × Int → Nat × Int → Int → Int
-  | 0, _, _, _, acc => acc
-  | _, [], _, _, acc => acc
-  | f+1, n :: ns, (lastDesc, lastNbits), (repDesc, repCnt), acc =>
-    let a1 := if n.enc.afNbits > 0 then acc + n.enc.afNbits else acc
-    let (a2, last) :=
-      if n.enc.nbits > 0 then (a1 + n.enc.nbits, (lastDesc, lastNbits))
-      else if n.flags.skipped ∨ n.flags.expanded ∨ n.flags.ignored then
-        (a1, (lastDesc, lastNbits))
-      else if lastDesc = n.desc then (a1 + lastNbits, (lastDesc, lastNbits))
-      else if Desc.f n.desc = 3 ∧ (repDesc = 0 ∨ (repDesc > 0 ∧ repCnt > 0)) then
-        match expandDesc T f 0 none n.desc with
-        | .ok (sub, _) =>
-          let l := estimateLoop T f sub (0, 0) (0, 0) 0
-          (a1 + l, (n.desc, l))
-        | .error _ => (a1, (lastDesc, lastNbits))
-      else (a1, (lastDesc, lastNbits))
-    let rd := if repDesc > 0 then repDesc - 1 else repDesc
-    let rep :=
-      if Desc.f n.desc = 1 then (Desc.x n.desc + (if Desc.y n.desc = 0 then 1 else 0), repCnt)
-      else if Desc.f n.desc = 0 ∧ Desc.x n.desc = 31 then (rd, if n.hasVal then n.ival else -1)
-      else (rd, repCnt)
-    estimateLoop T f ns last rep a2
+/-- `bufr_estimate_seq_length` with its running state: `(lastDesc, lastNbits)`, `(repDesc, repCnt)`
+and the delayed-replication tracking `(dlyNext, dlyX, dlyDesc, dlyCnt)` that makes the estimate a
+lower bound (skipped descriptors and those under a delayed replication with factor ≤ 0 or unknown
+take no bits) -/
+def estimateLoop (T : Tables) : Nat → List Node → Nat × Int → Nat × Int → (Bool × Nat × Nat × Int) → Int → Int
+  | 0, _, _, _, _, acc => acc
+  | _, [], _, _, _, acc => acc
+  | f+1, n :: ns, (lastDesc, lastNbits), (repDesc, repCnt), (dlyNext, dlyX, dlyDesc, dlyCnt), acc =>
+    let fx := Desc.f n.desc
+    if dlyDesc > 0 ∧ dlyCnt ≤ 0 then
+      estimateLoop T f ns (lastDesc, lastNbits) (repDesc, repCnt) (dlyNext, dlyX, dlyDesc - 1, dlyCnt) acc
+    else
+      let dlyDesc1 := if dlyDesc > 0 then dlyDesc - 1 else dlyDesc
+      if n.flags.skipped then
+        estimateLoop T f ns (lastDesc, lastNbits) (repDesc, repCnt) (dlyNext, dlyX, dlyDesc1, dlyCnt) acc
+      else
+        let dly : Bool × Nat × Nat × Int :=
+          if dlyNext ∧ fx = 0 ∧ Desc.x n.desc = 31 then (false, dlyX, dlyX, if n.hasVal then n.ival else -1)
+          else if fx = 1 ∧ Desc.y n.desc = 0 then (true, Desc.x n.desc, dlyDesc1, dlyCnt)
+          else (dlyNext, dlyX, dlyDesc1, dlyCnt)
+        let a1 := if n.enc.afNbits > 0 then acc + n.enc.afNbits else acc
+        let (a2, last) :=
+          if n.enc.nbits > 0 then (a1 + n.enc.nbits, (lastDesc, lastNbits))
+          else if n.flags.skipped ∨ n.flags.expanded ∨ n.flags.ignored then
+            (a1, (lastDesc, lastNbits))
+          else if lastDesc = n.desc then (a1 + lastNbits, (lastDesc, lastNbits))
+          else if fx = 3 ∧ (repDesc = 0 ∨ (repDesc > 0 ∧ repCnt > 0)) then
+            match expandDesc T f 0 none n.desc with
+            | .ok (sub, _) =>
+              let l := estimateLoop T f sub (0, 0) (0, 0) (false, 0, 0, 0) 0
+              (a1 + l, (n.desc, l))
+            | .error _ => (a1, (lastDesc, lastNbits))
+          else (a1, (lastDesc, lastNbits))
+        let rd := if repDesc > 0 then repDesc - 1 else repDesc
+        let rep :=
+          if fx = 1 then (Desc.x n.desc + (if Desc.y n.desc = 0 then 1 else 0), repCnt)
+          else if fx = 0 ∧ Desc.x n.desc = 31 then (rd, if n.hasVal then n.ival else -1)
+          else (rd, repCnt)
+        estimateLoop T f ns last rep dly a2
 
 /-- `bufr_repl_descriptors(first, nbdesc, count, flags, tbls, errflg, s4)`; `body` is already the
 `nbdesc` nodes (the caller refuses a short list) -/
@@ -108,7 +130,7 @@ def replDescriptors (T : Tables) : Nat → Nat → Option Nat → List Node → 
     let tooLong := match s4 with
       | some maxLen =>
         if count > 0 then
-          let len := estimateLoop T f (replicaOf T extra body 0) (0, 0) (0, 0) 0
+          let len := estimateLoop T f (replicaOf T extra body 0) (0, 0) (0, 0) (false, 0, 0, 0) 0
           decide (len * count / 8 > maxLen * 3)
         else false
       | none => false
@@ -185,7 +207,7 @@ end
 
 /-- `bufr_estimate_seq_length(seq, tbls)` -/
 def estimateSeqLength (T : Tables) (fuel : Nat) (ns : List Node) : Int :=
-  estimateLoop T fuel ns (0, 0) (0, 0) 0
+  estimateLoop T fuel ns (0, 0) (0, 0) (false, 0, 0, 0) 0
 
 /-- `bufr_expand_sequence(bsq, flags, tbls)`: `-1` when the list came back NULL or `errflg` is set -/
 def expandSequence (T : Tables) (fuel flags : Nat) (ns : List Node) : Except XErr (List Node) :=
